@@ -654,6 +654,105 @@ func main() {
 		}
 		fmt.Fprintf(&b, "(%s, %s, %s, %d)", lstr(c.unit), lstr(c.field), lstr(c.method), c.line)
 	}
+	b.WriteString("]\n\n/-- what happens to the results of `<recv>.connToCollector.Write(...)`: (unit, variables the call's results are assigned\n    to) and every LATER statement of the same method that assigns one of those variables again: (unit, variable, line) -/\n")
+	{
+		type ww struct {
+			unit string
+			vars []string
+		}
+		var writes []ww
+		var rewrites []connCall
+		for _, f := range files {
+			for _, d := range f.Decls {
+				fd, ok := d.(*ast.FuncDecl)
+				if !ok || fd.Body == nil {
+					continue
+				}
+				t, recv := recvTypeName(fd)
+				if t != typeName {
+					continue
+				}
+				isWrite := func(e ast.Expr) bool {
+					call, ok := e.(*ast.CallExpr)
+					if !ok {
+						return false
+					}
+					sel, ok := call.Fun.(*ast.SelectorExpr)
+					if !ok || sel.Sel.Name != "Write" {
+						return false
+					}
+					fld, ok := sel.X.(*ast.SelectorExpr)
+					if !ok || fld.Sel.Name != "connToCollector" {
+						return false
+					}
+					id, ok := fld.X.(*ast.Ident)
+					return ok && id.Name == recv
+				}
+				vars := map[string]token.Pos{}
+				ast.Inspect(fd.Body, func(n ast.Node) bool {
+					as, ok := n.(*ast.AssignStmt)
+					if !ok || len(as.Rhs) != 1 || !isWrite(as.Rhs[0]) {
+						return true
+					}
+					var names []string
+					for _, l := range as.Lhs {
+						if id, ok := l.(*ast.Ident); ok {
+							names = append(names, id.Name)
+							if id.Name != "_" {
+								if _, seen := vars[id.Name]; !seen {
+									vars[id.Name] = as.End()
+								}
+							}
+						} else {
+							names = append(names, "?")
+						}
+					}
+					writes = append(writes, ww{fd.Name.Name, names})
+					return true
+				})
+				ast.Inspect(fd.Body, func(n ast.Node) bool {
+					switch st := n.(type) {
+					case *ast.AssignStmt:
+						if len(st.Rhs) == 1 && isWrite(st.Rhs[0]) {
+							return true
+						}
+						for _, l := range st.Lhs {
+							if id, ok := l.(*ast.Ident); ok {
+								if after, is := vars[id.Name]; is && st.Pos() >= after {
+									rewrites = append(rewrites, connCall{fd.Name.Name, "", id.Name, fset.Position(st.Pos()).Line})
+								}
+							}
+						}
+					case *ast.IncDecStmt:
+						if id, ok := st.X.(*ast.Ident); ok {
+							if after, is := vars[id.Name]; is && st.Pos() >= after {
+								rewrites = append(rewrites, connCall{fd.Name.Name, "", id.Name, fset.Position(st.Pos()).Line})
+							}
+						}
+					}
+					return true
+				})
+			}
+		}
+		b.WriteString("def connWrites : List (String × List String) := [")
+		for i, w := range writes {
+			if i > 0 {
+				b.WriteString(", ")
+			}
+			var q []string
+			for _, v := range w.vars {
+				q = append(q, lstr(v))
+			}
+			fmt.Fprintf(&b, "(%s, [%s])", lstr(w.unit), strings.Join(q, ", "))
+		}
+		b.WriteString("]\n\ndef writeResultRewrites : List (String × String × Nat) := [")
+		for i, c := range rewrites {
+			if i > 0 {
+				b.WriteString(", ")
+			}
+			fmt.Fprintf(&b, "(%s, %s, %d)", lstr(c.unit), lstr(c.method), c.line)
+		}
+	}
 	b.WriteString("]\n\nend LocksExporter\nend Generated\n")
 
 	if err := os.MkdirAll(outdir, 0o755); err != nil {
